@@ -88,6 +88,8 @@ prop('C15',
          dict(harness='c15_find_node', covers=['c15.send', 'c15.response', 'c15.peer-failure', 'c15.timeout', 'c15.succeeded', 'c15.failed', 'c15.wait'],
               min_paths=1000, split={'quick': 8, 'thorough': 9}, params={'quick': {'steps': 4}, 'thorough': {'steps': 5}},
               conform={'quick': 60, 'thorough': 500}, nvals=40),
+         dict(harness='c15_find_node_step', covers=['c15s.send', 'c15s.wait', 'c15s.succeeded', 'c15s.failed'], min_paths=1000, split=5,
+              conform={'quick': 100, 'thorough': 1000}, nvals=24),
          dict(harness='c15_get_record', covers=['c15r.send', 'c15r.response', 'c15r.peer-failure', 'c15r.succeeded', 'c15r.failed', 'c15r.wait'],
               min_paths=1000, split={'quick': 8, 'thorough': 9}, params={'quick': {'steps': 3}, 'thorough': {'steps': 5}},
               conform={'quick': 60, 'thorough': 500}, nvals=40),
@@ -226,4 +228,20 @@ prop('C03',
      bounds={'dialer list': 'main + 0..3 fallbacks', 'listener set': 'any subset of 4 names, two orders', 'names': '2-byte names',
              'codec input': 'quick <= 8, thorough <= 12 symbolic bytes'},
      outside=['interoperability with the reference libp2p implementation', 'fallback->main mapping in protocol_set.rs', 'long names / lists'],
+     )
+
+prop('C01',
+     explanation='Symbolic execution of the real identity check of the Noise handshake (parse_and_verify_peer_id, RemotePublicKey parsing, '
+                 'PeerId derivation) under a perfect-cryptography model of ed25519: keys are fresh atoms, a signature is an unforgeable token '
+                 'bound to (key, message), the session and signed DH keys have solver-chosen bytes.',
+     units=[
+         dict(harness='c01_identity_binding', covers=['c01.authenticated', 'c01.refused'], min_paths=15, split=0, conform={'quick': 200, 'thorough': 2000}, nvals=6),
+     ],
+     assumptions=['perfect cryptography: ed25519 signatures cannot be forged, distinct generated keys differ, every 32-byte string parses as a key',
+                  'the key protobuf is decoded exactly for concrete bytes (two fields)'],
+     bounds={'identity': 'absent / key A / truncated key A / key B', 'signature': 'absent / by A / by B / forged bytes / by A without the domain prefix',
+             'DH keys': '32 bytes, first byte symbolic for the session key and for the signed key'},
+     outside=['the Noise XX cryptography (snow, AEAD), byte corruption/truncation of the three handshake messages, stream fragmentation',
+              'the role-specific flow of handshake() (async, over snow): that BOTH roles reach this check is read, not encoded',
+              'the dialed-peer comparison in tcp::connection::negotiate_connection (async)', 'ed25519 strictness (small-order keys, malleability)'],
      )
